@@ -49,29 +49,29 @@ func (k Kind) IsStr() bool      { return k == KString || k == KStringOpt || k ==
 
 // Opt - declaration of one option.
 type Opt struct {
-	ID        int      `json:"id"`
-	Kind      Kind     `json:"kind"`
-	Name      string   `json:"name"`
-	Aliases   []string `json:"aliases,omitempty"`
-	DefB      bool     `json:"defb,omitempty"`
-	DefS      string   `json:"defs,omitempty"`
-	DefI      int      `json:"defi,omitempty"`
-	DefF      float64  `json:"deff,omitempty"`
-	Min       int      `json:"min,omitempty"`
-	Max       int      `json:"max,omitempty"`
-	Required  bool     `json:"required,omitempty"`
-	ReqMsg    string   `json:"reqmsg,omitempty"`
-	Env       string   `json:"env,omitempty"`
-	EnvSet    bool     `json:"envset,omitempty"` // set the variable to EnvVal before defining
-	EnvVal    string   `json:"envval,omitempty"`
-	Valid     []string `json:"valid,omitempty"`
-	Suggested []string `json:"suggested,omitempty"`
-	SuggFn    []string `json:"suggfn,omitempty"` // what the dynamic value-completion function returns
-	Desc      string   `json:"desc,omitempty"`
-	ArgName   string   `json:"argname,omitempty"`
-	UseVar    bool     `json:"usevar,omitempty"`
-	SetCalled bool     `json:"setcalled,omitempty"`
-	AliasSplit bool    `json:"aliassplit,omitempty"` // aliases given through two Alias modifiers instead of one
+	ID         int      `json:"id"`
+	Kind       Kind     `json:"kind"`
+	Name       string   `json:"name"`
+	Aliases    []string `json:"aliases,omitempty"`
+	DefB       bool     `json:"defb,omitempty"`
+	DefS       string   `json:"defs,omitempty"`
+	DefI       int      `json:"defi,omitempty"`
+	DefF       float64  `json:"deff,omitempty"`
+	Min        int      `json:"min,omitempty"`
+	Max        int      `json:"max,omitempty"`
+	Required   bool     `json:"required,omitempty"`
+	ReqMsg     string   `json:"reqmsg,omitempty"`
+	Env        string   `json:"env,omitempty"`
+	EnvSet     bool     `json:"envset,omitempty"` // set the variable to EnvVal before defining
+	EnvVal     string   `json:"envval,omitempty"`
+	Valid      []string `json:"valid,omitempty"`
+	Suggested  []string `json:"suggested,omitempty"`
+	SuggFn     []string `json:"suggfn,omitempty"` // what the dynamic value-completion function returns
+	Desc       string   `json:"desc,omitempty"`
+	ArgName    string   `json:"argname,omitempty"`
+	UseVar     bool     `json:"usevar,omitempty"`
+	SetCalled  bool     `json:"setcalled,omitempty"`
+	AliasSplit bool     `json:"aliassplit,omitempty"` // aliases given through two Alias modifiers instead of one
 }
 
 // Keys - name followed by aliases.
@@ -97,20 +97,20 @@ type Cmd struct {
 
 // Prog - a complete program definition.
 type Prog struct {
-	Mode     int    `json:"mode"`
-	Unknown  int    `json:"unknown"`
-	ReqOrder bool   `json:"reqorder,omitempty"`
-	MapLower bool   `json:"maplower,omitempty"`
-	Help     string `json:"help,omitempty"`
+	Mode        int      `json:"mode"`
+	Unknown     int      `json:"unknown"`
+	ReqOrder    bool     `json:"reqorder,omitempty"`
+	MapLower    bool     `json:"maplower,omitempty"`
+	Help        string   `json:"help,omitempty"`
 	HelpAliases []string `json:"helpaliases,omitempty"` // aliases of the help flag (modifiers given to HelpCommand)
-	SelfName string `json:"selfname,omitempty"`
-	SelfDesc string `json:"selfdesc,omitempty"`
-	LateMode bool   `json:"latemode,omitempty"` // SetMode is called after the commands are defined
+	SelfName    string   `json:"selfname,omitempty"`
+	SelfDesc    string   `json:"selfdesc,omitempty"`
+	LateMode    bool     `json:"latemode,omitempty"` // SetMode is called after the commands are defined
 	// LateUnknown / LateReqOrder - SetUnknownMode / SetRequireOrder are called on the program after its commands were
 	// defined: commands copy these two settings when they are created, so they keep the defaults (Fail, no require-order)
 	LateUnknown  bool `json:"lateunknown,omitempty"`
 	LateReqOrder bool `json:"latereqorder,omitempty"`
-	Root     *Cmd   `json:"root"`
+	Root         *Cmd `json:"root"`
 }
 
 var modeNames = []string{"normal", "bundling", "singledash"}
